@@ -1122,3 +1122,71 @@ def abs_exec_block(block, env, assume, binds=None, accessors=None):
         if v == ERR:
             return "err"
     return "unknown" if unknown else "pass"
+
+
+_BINOPS = {"Eq": "==", "Ne": "!=", "Lt": "<", "Le": "<=", "Gt": ">", "Ge": ">=", "And": "&&", "Or": "||", "Add": "+", "Sub": "-",
+           "Mul": "*", "Div": "/", "Rem": "%", "BitAnd": "&", "BitOr": "|", "BitXor": "^", "Shl": "<<", "Shr": ">>"}
+
+
+def show(n, depth=0):
+    """Compact canonical rendering of an expression (references, derefs and casts peeled; paths by last segment;
+    `a > b` printed as `b < a`, `a >= b` as `b <= a`). For matching guard conditions structurally, not for display."""
+    n = strip(n)
+    if not isinstance(n, dict) or depth > 12:
+        return "?"
+    k = n.get("k")
+    if k == "path":
+        r = n.get("res", {})
+        if "local" in r:
+            return r["local"]
+        d = r.get("def") or r.get("path") or ""
+        return d.split("::")[-1] if d else "?path"
+    if k == "lit":
+        v = n.get("v")
+        if isinstance(v, dict):
+            for kk in ("str", "int", "bool", "char", "float", "bytes"):
+                if kk in v:
+                    return repr(v[kk]) if kk in ("str", "char", "bytes") else str(v[kk])
+        return str(v)
+    if k == "field":
+        return "%s.%s" % (show(n["base"], depth + 1), n.get("name"))
+    if k == "mcall":
+        return "%s.%s(%s)" % (show(n["recv"], depth + 1), n.get("name"), ", ".join(show(a, depth + 1) for a in n.get("args", [])))
+    if k == "call":
+        f = n.get("fn") or n.get("resolved") or (variant_name(n["ctor"]) if n.get("ctor") else None) or show(n.get("callee"), depth + 1)
+        f = re.sub(r"<.*?>", "", f).split("::")[-1] if f else "?"
+        return "%s(%s)" % (f, ", ".join(show(a, depth + 1) for a in n.get("args", [])))
+    if k == "binary":
+        op = n.get("op")
+        l, r = show(n["l"], depth + 1), show(n["r"], depth + 1)
+        if op == "Gt":
+            op, l, r = "Lt", r, l
+        elif op == "Ge":
+            op, l, r = "Le", r, l
+        return "(%s %s %s)" % (l, _BINOPS.get(op, op), r)
+    if k == "unary":
+        return "%s(%s)" % ({"Not": "!", "Neg": "-"}.get(n.get("op"), n.get("op")), show(n["e"], depth + 1))
+    if k == "index":
+        return "%s[%s]" % (show(n["base"], depth + 1), show(n["idx"], depth + 1))
+    if k == "tup":
+        return "(%s)" % ", ".join(show(a, depth + 1) for a in n.get("es", []))
+    if k == "match" and n.get("src") == "try":
+        return show(try_inner(n), depth + 1) + "?"
+    if k == "letexpr":
+        return "let %s = %s" % (pat_str(n.get("pat")), show(n.get("init"), depth + 1))
+    if k == "closure":
+        return "|..| " + show(n.get("body"), depth + 1)
+    if k == "struct":
+        return "%s{%s}" % ((n.get("res", {}).get("def") or n.get("ty") or "struct").split("::")[-1],
+                           ", ".join("%s: %s" % (f.get("name"), show(f.get("e"), depth + 1)) for f in n.get("fields", [])))
+    if k == "range":
+        return "%s..%s" % (show(n.get("lo"), depth + 1) if n.get("lo") else "", show(n.get("hi"), depth + 1) if n.get("hi") else "")
+    return "<%s>" % k
+
+
+def chain_root(n):
+    """Innermost receiver of a method-call chain: `a.b().c()` → node of `a`."""
+    n = strip(n)
+    while isinstance(n, dict) and n.get("k") == "mcall":
+        n = strip(n["recv"])
+    return n
